@@ -14,7 +14,8 @@ EXPLANATION = (
     'the clear channel dominates the creation of the shell request and its cleared edge returns Cleared without creating one; R18.c '
     'the Clear request is built from the id received on the clear channel, lies only behind the receiver arm, and is awaited before '
     'Cleared is returned; R18.d the two task bodies have the same callee sequence up to the request/response variant (tabled '
-    'difference: one extra unreachable! in notify_after). W18 witnesses (thorough): clear consumes the handle; the handle is not Clone. '
+    'difference: one extra unreachable! in notify_after); R18.e Completed is reachable only along the edge on which the shell\'s answer is '
+    'InstantArrived / DurationElapsed, and the late Cleared only along its Cleared answer. W18 witnesses (thorough): clear consumes the handle; the handle is not Clone. '
     'Interleavings of fire / clear / drop / late answers and the bias of select_biased! are not decided.')
 
 
@@ -23,6 +24,7 @@ def check(ctx, rep):
     rep.rule('R18.b', 'a timer cleared before it was requested sends nothing', floor=2)
     rep.rule('R18.c', 'the Clear request carries the id received on the clear channel and is awaited', floor=2)
     rep.rule('R18.d', 'notify_at and notify_after agree up to the request / response variant', floor=1)
+    rep.rule('R18.e', 'Completed is reported only for the shell\'s InstantArrived / DurationElapsed answer, the late Cleared only for its Cleared answer', floor=4)
     time = ctx.crate('default', 'crux_time')
     if time is None:
         rep.missing('R18.a', 'crux_time facts')
@@ -158,6 +160,34 @@ def check(ctx, rep):
             ok = from_chan and bool(creq) and awaited and not f.dominates(cb, bb) and cb not in f.reachable([0], removed_blocks=[tries[0]] if tries else [])
         rep.expect('R18.c', ok, '%s|clear-request' % variant, 'Clear { id } takes the id received on the clear channel and is awaited before Cleared',
                    'command %s task: the Clear request does not carry the id received on the clear channel, or is not awaited' % variant)
+        # R18.e: an outcome is reported only for the matching answer of the shell
+        comp = [b2 for b2, i2, s2 in f.stmts('assign') if s2['rv']['k'] == 'agg' and path_matches(s2['rv'].get('adt'), 'command::TimerOutcome')
+                and s2['rv']['variant'] == 'Completed']
+        want_resp = {'NotifyAt': 'InstantArrived', 'NotifyAfter': 'DurationElapsed'}[variant]
+        radt = time.adts.get('crux_time::protocol::TimeResponse')
+        ridx = {v['name']: v['idx'] for v in radt['variants']} if radt else {}
+
+        def response_edges(name):
+            out = []
+            for sb, st in f.terms('switch'):
+                for o in origins(f, st['a']):
+                    if o.kind == 'rvalue' and o.stmt['rv']['k'] == 'discr' and path_matches(o.stmt['rv']['a'].get('adt'), 'crux_time::protocol::TimeResponse'):
+                        tgt = None
+                        for v, b in st['arms']:
+                            if v == ridx.get(name):
+                                tgt = b
+                        if tgt is not None:
+                            out.append((sb, tgt))
+            return out
+        ce = response_edges(want_resp)
+        ok = bool(comp) and bool(ce) and all(c not in f.reachable([0], removed_edges=ce) for c in comp)
+        rep.expect('R18.e', ok, '%s|completed-needs-answer' % variant, 'Completed is reachable only through the %s answer of the shell' % want_resp,
+                   'command %s task can report Completed without the shell having answered its request with %s' % (variant, want_resp))
+        le = response_edges('Cleared')
+        late = [c for c in cleared_rets if c not in early]
+        ok = bool(late) and bool(le) and all(c not in f.reachable([0], removed_edges=le) for c in late)
+        rep.expect('R18.e', ok, '%s|cleared-needs-answer' % variant, 'the late Cleared is reachable only through the Cleared answer of the shell',
+                   'command %s task can report Cleared (after a request was sent) without the shell having answered the Clear request' % variant)
         # sequence of calls for the sibling diff
         seq = []
         for blk in f.blocks:
